@@ -36,27 +36,28 @@ Proof. exact invalid_mode_pf. Qed.
 Theorem C18_invalid_version_never_accepted : forall s f, run_cmd s (OSetVersion None f) = (s, RInvalid).
 Proof. exact invalid_version_pf. Qed.
 
-(* ---------- a rejected change leaves the served configuration exactly as it was ---------- *)
+(* ---------- a rejected change leaves the served configuration exactly as it was ----------
+   (proved on the code as repaired by the fix commits 543d12e, 2b7647d, 953cbe1 in /repo; on the tree before
+   them the statement was refuted by the two witnesses that are now the regression lemmas below) *)
 Definition C18_rejected_keeps_served_full : Prop := rejected_full.
-(* FALSE of the code as it is (S11): the label-property roll-back applies the inverse operation *)
-Theorem C18_rejected_keeps_served_refuted : ~ C18_rejected_keeps_served_full.
-Proof. exact rejected_refuted_label_pf. Qed.
-(* second, independent witness: a replication change refused by SetRule has already edited the served default rule *)
-Theorem C18_rejected_refuted_by_rule_edit :
-  exists s' r, run_cmd (boot base_conf) (OSetReplication (Repl 0 [] "" true false) NoFault) = (s', r)
-    /\ r = RRuleContent /\ served s' = served (boot base_conf) /\ srule s' = Some (Rule 0 []) /\ srule (boot base_conf) = Some (Rule 3 []).
-Proof. exact rejected_refuted_rule_pf. Qed.
-(* TRUE for the six sections held by PersistOptions, for every setter, every value, every fault; the excluded
-   class is the label-property call whose inverse does not undo it (label already present / absent) *)
-Theorem C18_rejected_keeps_served_partial :
-  forall s o s' r, run_cmd s o = (s', r) -> r <> ROk -> label_rollback_exact (c_lp (served s)) o -> served s' = served s.
-Proof. exact rejected_keeps_served_partial_pf. Qed.
-(* TRUE for the served default rule unless the change is one that edits it (placement rules on, count or labels
-   changed, rule consistent with the old settings) *)
-Theorem C18_rejected_keeps_rule_partial :
-  forall s o s' r, run_cmd s o = (s', r) -> r <> ROk -> rm_init s = true ->
-    (forall c f, o = OSetReplication c f -> repl_check s c (c_repl (served s)) <> Some true) -> srule s' = srule s.
-Proof. exact rejected_keeps_rule_partial_pf. Qed.
+(* every setter, every value, every fault, ANY state: the six sections are exactly as before, and with placement
+   rules on (and a positive max-replicas, which SetRule insists on for the roll-back) so is the served default rule *)
+Theorem C18_rejected_keeps_served : C18_rejected_keeps_served_full.
+Proof. exact rejected_full_pf. Qed.
+
+(* regressions (old witnesses): S11 — the label is already there, the save fails: nothing changes any more *)
+Theorem C18_regression_label_rollback :
+  run_cmd (boot base_conf) (OSetLabel "reject-leader" "zone" "z1" (Fault GConfig 0 FBefore)) = (boot base_conf, RStorage).
+Proof. exact regression_label_rollback. Qed.
+(* max-replicas 0 is refused by SetRule and the served default rule is untouched *)
+Theorem C18_regression_rule_not_edited_on_refusal :
+  run_cmd (boot base_conf) (OSetReplication (Repl 0 [] "" true false) NoFault) = (boot base_conf, RRuleContent).
+Proof. exact regression_rule_not_edited_on_refusal. Qed.
+(* a failed config write rolls back count AND labels of the default rule *)
+Theorem C18_regression_rule_labels_rolled_back :
+  exists s', run_cmd (boot base_conf) (OSetReplication (Repl 5 ["zone"] "" true false) (Fault GConfig 0 FBefore)) = (s', RStorage) /\
+    served s' = base_conf /\ srule s' = Some (Rule 3 []) /\ strule s' = Some (Rule 3 []).
+Proof. exact regression_rule_labels_rolled_back. Qed.
 
 (* ---------- an accepted change is what a newly elected leader reloads ---------- *)
 (* whatever was accepted is exactly the value of the config key: no hypothesis *)
@@ -64,23 +65,18 @@ Theorem C18_accepted_config_is_stored :
   forall s o s', run_cmd s o = (s', ROk) -> stored s' = Some (served s').
 Proof. exact accepted_config_is_stored_pf. Qed.
 
+(* the full statement, for every history from every boot configuration: reload = documented normalisation of what is
+   served (default schedulers re-added, the deprecated flags — disable-*, store-balance-rate, trace-region-flow —
+   cleared), and with placement rules on the stored default rule is the served one.  `definite`: no rule write of the
+   history was applied-but-reported-failed (after such an unknown outcome storage is ahead until the next rule edit). *)
 Definition C18_accepted_is_reloaded_full : Prop := accepted_full.
-(* FALSE (S17): with placement rules on, SetReplicationConfig edits the served default rule in place and saves nothing *)
-Theorem C18_accepted_is_reloaded_refuted : ~ C18_accepted_is_reloaded_full.
-Proof. exact accepted_refuted_rule_pf. Qed.
-(* second witness: trace-region-flow=false is dropped by `omitempty`, the documented migration never happens *)
-Theorem C18_accepted_refuted_by_trace_flag :
-  exists s', run_cmd (boot base_conf) (OSetPDServer (PdSrv "auto" 3 false "table") NoFault) = (s', ROk) /\
-    option_map reload_conf (stored s') <> Some (normalise (served s')).
-Proof. exact accepted_refuted_trace_pf. Qed.
-(* TRUE for every history in which no replication change edits the default rule, when trace-region-flow is on:
-   reload = documented normalisation of what is served, and the stored default rule is the served one *)
-Theorem C18_accepted_is_reloaded_partial :
-  forall c0 ops o s', no_rule_edit (boot c0) (ops ++ [o]) -> run_cmd (reach c0 ops) o = (s', ROk) ->
-    ps_trace (c_pd (served s')) = true ->
-    option_map reload_conf (stored s') = Some (normalise (served s')) /\
-    (rp_pr (c_repl (served s')) = true -> strule s' = srule s').
-Proof. exact accepted_partial_pf. Qed.
+Theorem C18_accepted_is_reloaded : C18_accepted_is_reloaded_full.
+Proof. exact accepted_full_pf. Qed.
+(* regression (old witness, S17): placement rules on, max-replicas 3 -> 5: served rule and stored rule both 5 *)
+Theorem C18_regression_rule_persisted :
+  exists s', run_cmd (boot base_conf) (OSetReplication (Repl 5 ["zone"] "" true false) NoFault) = (s', ROk) /\
+    srule s' = Some (Rule 5 ["zone"]) /\ strule s' = Some (Rule 5 ["zone"]).
+Proof. exact regression_rule_persisted. Qed.
 
 (* ---------- non-vacuity ---------- *)
 Definition ex_ops : list op :=
@@ -98,8 +94,8 @@ Example C18_nonvacuous :
   map o_res (run run_op (boot base_conf) ex_ops) =
     [ROk; RInvalid; RInvalid; RStorage; RNotMember; ROk; RStorage; ROk; RInvalid; RStorage; ROk; ROk; RInvalid].
 Proof. vm_compute. reflexivity. Qed.
-Example C18_nonvacuous_no_rule_edit : no_rule_edit (boot base_conf) ex_ops.
-Proof. vm_compute. repeat split; try discriminate; exact I. Qed.
+Example C18_nonvacuous_definite : definite ex_ops.
+Proof. vm_compute. repeat split; exact I. Qed.
 
 Print Assumptions C18_invalid_schedule_never_accepted.
 Print Assumptions C18_deprecated_schedule_never_accepted.
@@ -108,11 +104,10 @@ Print Assumptions C18_malformed_label_never_accepted.
 Print Assumptions C18_invalid_pdserver_never_accepted.
 Print Assumptions C18_invalid_mode_never_accepted.
 Print Assumptions C18_invalid_version_never_accepted.
-Print Assumptions C18_rejected_keeps_served_refuted.
-Print Assumptions C18_rejected_refuted_by_rule_edit.
-Print Assumptions C18_rejected_keeps_served_partial.
-Print Assumptions C18_rejected_keeps_rule_partial.
+Print Assumptions C18_rejected_keeps_served.
+Print Assumptions C18_regression_label_rollback.
+Print Assumptions C18_regression_rule_not_edited_on_refusal.
+Print Assumptions C18_regression_rule_labels_rolled_back.
 Print Assumptions C18_accepted_config_is_stored.
-Print Assumptions C18_accepted_is_reloaded_refuted.
-Print Assumptions C18_accepted_refuted_by_trace_flag.
-Print Assumptions C18_accepted_is_reloaded_partial.
+Print Assumptions C18_accepted_is_reloaded.
+Print Assumptions C18_regression_rule_persisted.
